@@ -20,7 +20,7 @@ theorem Untouched.nodes {s s' : St} (h : Untouched s s') : s'.nodes = s.nodes :=
   unfold St.nodes; rw [h.1]
 theorem Untouched.good {s s' : St} (h : Untouched s s') (hg : Good s) : Good s' := by
   have hn := h.nodes
-  refine ⟨?_, ?_, ?_, ?_, ?_, ?_⟩
+  refine ⟨?_, ?_, ?_, ?_, ?_, ?_, by rw [h.1]; exact hg.rs⟩
   · rw [h.1]; exact hg.wf
   · rw [h.1]; exact hg.tinv
   · rw [hn]; exact hg.inv
